@@ -111,6 +111,32 @@ prop('C10', title='Link-layer envelopes are transparent: Nack, PIT token and wra
      level_note='Nack encode layout / reason codes up to 2^64-1 and several tokens in all orders are bounded.',
      technique=T_MIXED)
 
-# harnesses still being written: not claimed yet
-for _p in ('C01', 'C02', 'C04', 'C06', 'C10'):
-    PROPS[_p]['claimed'] = False
+prop('C11', title='A compiled trust schema matches exactly the names its source text describes', level='exploration',
+     bounded=[('bounded.c11', 'run', SH)],
+     level_text='Deciding check (bounded): Checker.match on compile_lvs(text), directly and after load(save()), equals an independent '
+                'reference semantics evaluated on the generator\'s abstract schema, for generated schemas x all names up to length 4.',
+     level_note='A proof of the three-pass compiler for all programs is outside what contracts on these functions can express '
+                '(DESIGN.md 6/C11); deductive fragments (_check_cons, the match cut obligations) are listed in evidence when built.',
+     technique=T_BOUNDED)
+prop('C12', title='The signing check holds exactly when the schema lets that key sign that packet', level='exploration',
+     bounded=[('bounded.c12', 'run', SH)],
+     level_text='Deciding check (bounded): Checker.check equals the reference signing relation on generated schemas with signing '
+                'chains / alternatives / shared patterns, for all name pairs up to length 3 (+ matching length-4 names).',
+     level_note='Completeness of the backtracking search is only explored, not proved.', technique=T_BOUNDED)
+prop('C13', title='Ill-formed schemas and models are rejected; accepted models always terminate', level='fault_enumeration',
+     bounded=[('bounded.c13', 'run', SH)],
+     level_text='Deciding check (bounded): one injected static error of each documented kind at every position of generated schemas must '
+                'raise the documented error; every single-field corruption of compiled models is rejected or yields a model on which '
+                'match/check terminate within a step budget.',
+     level_note='Termination is checked with a step budget (10^5 traced lines), not proved.', technique=T_BOUNDED)
+prop('C14', title='The schema validator accepts exactly packets with a valid chain to the anchor', level='fault_enumeration',
+     bounded=[('bounded.c14', 'run', SH)],
+     level_text='Deciding check (bounded): generated PKIs (depth 1..4, EC + RSA) x every single deviation at every link, with real crypto and '
+                'an in-process certificate face; constructor refusal; verdict independence over all orders of two instances x three packets.',
+     level_note='Signature schemes and Interest/Data retrieval are assumed; hierarchies are small and generated.', technique=T_BOUNDED)
+prop('C16', title='Issued certificates are well-formed, correctly named and verifiable', level='exploration',
+     bounded=[('bounded.c16', 'run', SH)],
+     level_text='Deciding check (bounded): self_sign / sign_req / derive_cert / new_cert over EC/RSA/Ed25519 subject x issuer, many ECDSA '
+                'signature lengths, start times at year and leap boundaries, naive/UTC/offset datetimes: well-formed element (independent '
+                'walker), name, content, content type, exact validity instants, verification, key locator, parse-back.',
+     level_note='datetime/strftime and the signature primitives are assumed.', technique=T_BOUNDED)
